@@ -1,70 +1,49 @@
 // Family c36: blocks built locally are valid blocks (miner/worker.go, miner/payload_building.go,
 // core/state_processor.go, core/block_validator.go, eth/catalyst/api.go) vs coq/EVM/Build.v.
 //
-// A case is (scenario, record).  The scenario is explicit: fork, block gas limit, miner
-// configuration, payload attributes (withdrawals, beacon root, random, slot, target gas limit),
-// prioritised senders and a list of transaction specs over a fixed genesis (plain EOAs, two
-// EOAs that carry an EIP-7702 delegation in genesis, helper contracts).  Run rebuilds a real
-// core.BlockChain, a real legacypool + blobpool behind txpool.TxPool and a real miner.Miner,
-// fills the pools, calls Miner.BuildPayload and resolves the FULL payload, then imports the
-// block (a) into a fresh core.BlockChain with InsertChain and (b) through
-// catalyst.NewConsensusAPI(...).NewPayloadV3/V4/V5 of a fresh eth.Ethereum.
+// A case is (scenario, record).  The scenario is explicit: the rule set at genesis, an optional
+// later rule set with the ROUND at whose block time it activates (fork boundaries incl. blob
+// schedule changes), block gas limit, miner configuration, prioritised senders and 1-3 ROUNDS,
+// each with payload attributes (withdrawals, beacon root, random, slot, target gas limit) and
+// transaction specs over a fixed genesis (plain EOAs, four EOAs that carry an EIP-7702
+// delegation in genesis whose nonce / balance other senders can move, helper contracts).
+// Run builds a real core.BlockChain, a real legacypool + blobpool behind txpool.TxPool and a
+// real miner.Miner; per round it fills the pools, calls Miner.BuildPayload, resolves the FULL
+// payload and imports the block (a) into a second core.BlockChain with InsertChain and (b)
+// through catalyst's ConsensusAPI.NewPayloadV3/V4/V5 of a separate eth.Ethereum, then advances
+// the builder's chain with it.
 //
-// The record (computed by Gen by running the same code once, and recomputed + compared by
-// Run) is everything the Coq model replays: the two pending maps the pools serve to the
-// miner, per-transaction metadata, and the table of per-(position, tx) outcomes of
-// core.ApplyTransaction, obtained by replaying the miner's attempts (included transactions +
-// Payload.FullBlockAndReceipts' reverted list) on a shadow environment.
+// The record (computed by Gen by running the same code once, recomputed + compared by Run) is,
+// per round, everything the Coq model replays: the two pending maps the pools serve to the
+// miner, per-transaction metadata, the parent header's blob fields with the fork schedule, and
+// the table of per-(position, tx) outcomes of core.ApplyTransaction, obtained by replaying the
+// miner's attempts (included transactions + Payload.FullBlockAndReceipts' reverted list) on a
+// shadow environment.
+//
+// files: main.go (fixed world), scenario.go (case format, tx construction), run.go (builder,
+// importers, oracle, record, observation), gen.go (generator, entry point).
 package main
 
 import (
-	"bytes"
-	"context"
 	"crypto/ecdsa"
-	"errors"
-	"fmt"
 	"math/big"
-	"os"
-	"sort"
 	"sync"
-	"time"
 
-	"github.com/ethereum/go-ethereum/beacon/engine"
 	"github.com/ethereum/go-ethereum/common"
-	"github.com/ethereum/go-ethereum/common/hexutil"
-	"github.com/ethereum/go-ethereum/consensus/beacon"
-	"github.com/ethereum/go-ethereum/consensus/ethash"
-	"github.com/ethereum/go-ethereum/consensus/misc/eip1559"
-	"github.com/ethereum/go-ethereum/consensus/misc/eip4844"
 	"github.com/ethereum/go-ethereum/core"
-	"github.com/ethereum/go-ethereum/core/rawdb"
-	"github.com/ethereum/go-ethereum/core/txpool"
-	"github.com/ethereum/go-ethereum/core/txpool/blobpool"
-	"github.com/ethereum/go-ethereum/core/txpool/legacypool"
 	"github.com/ethereum/go-ethereum/core/types"
-	"github.com/ethereum/go-ethereum/core/vm"
 	"github.com/ethereum/go-ethereum/crypto"
 	"github.com/ethereum/go-ethereum/crypto/kzg4844"
-	"github.com/ethereum/go-ethereum/eth"
-	"github.com/ethereum/go-ethereum/eth/catalyst"
-	"github.com/ethereum/go-ethereum/eth/ethconfig"
-	"github.com/ethereum/go-ethereum/miner"
-	"github.com/ethereum/go-ethereum/node"
-	"github.com/ethereum/go-ethereum/p2p"
 	"github.com/ethereum/go-ethereum/params"
-	"github.com/ethereum/go-ethereum/trie"
-	"github.com/holiman/uint256"
-
-	. "gethverif/harness/hxlib"
 )
 
 // ---------------------------------------------------------------- fixed world
 
 const (
 	nPlain = 8  // accounts 0..7: plain EOAs
-	aBump  = 8  // EOA delegated (in genesis) to bumpC: any call to it bumps ITS nonce (CREATE)
-	aSweep = 9  // EOA delegated (in genesis) to sweepC: any call to it sends its balance away
-	nAcct  = 10 // accounts with keys
+	aBump  = 8  // 8, 9: EOAs delegated (in genesis) to bumpC: any call to them bumps THEIR nonce (CREATE)
+	aSweep = 10 // 10, 11: EOAs delegated (in genesis) to sweepC: any call to them sends their balance away
+	nAcct  = 12 // accounts with keys
 	genTime = 9000
 )
 
@@ -73,7 +52,8 @@ const (
 	fPrague
 	fOsaka
 	fBPO1
-	fAmsterdam
+	fBPO2
+	fAmsterdam // with BPO1 and BPO2 active
 	nForks
 )
 
@@ -155,31 +135,30 @@ func initBlobs() {
 
 func u64p(v uint64) *uint64 { return &v }
 
-func chainConfig(fork int) *params.ChainConfig {
+// chainConfig: rule set [fork] from genesis; the rule sets in (fork, fork2] activate at
+// timestamp [switchTime] (fork2 <= fork: no later fork).
+func chainConfig(fork, fork2 int, switchTime uint64) *params.ChainConfig {
 	c := *params.MergedTestChainConfig
 	c.ChainID = big.NewInt(1337)
 	c.ShanghaiTime, c.CancunTime = u64p(0), u64p(0)
-	c.PragueTime, c.OsakaTime, c.BPO1Time, c.AmsterdamTime = nil, nil, nil, nil
 	c.BlobScheduleConfig = &params.BlobScheduleConfig{Cancun: params.DefaultCancunBlobConfig, Prague: params.DefaultPragueBlobConfig,
-		BPO1: params.DefaultBPO1BlobConfig}
-	if fork >= fPrague {
-		c.PragueTime = u64p(0)
+		BPO1: params.DefaultBPO1BlobConfig, BPO2: params.DefaultBPO2BlobConfig}
+	at := func(id int) *uint64 {
+		switch {
+		case id <= fork:
+			return u64p(0)
+		case id <= fork2:
+			return u64p(switchTime)
+		}
+		return nil
 	}
-	if fork >= fOsaka {
-		c.OsakaTime = u64p(0)
-	}
-	if fork == fBPO1 {
-		c.BPO1Time = u64p(0)
-	}
-	if fork == fAmsterdam {
-		c.AmsterdamTime = u64p(0)
-	}
+	c.PragueTime, c.OsakaTime, c.BPO1Time, c.BPO2Time, c.AmsterdamTime = at(fPrague), at(fOsaka), at(fBPO1), at(fBPO2), at(fAmsterdam)
 	return &c
 }
 
 func delegation(to common.Address) []byte { return types.AddressToDelegation(to) }
 
-func genesis(fork int, gasLimit uint64) *core.Genesis {
+func genesis(cfg *params.ChainConfig, gasLimit uint64) *core.Genesis {
 	rich := new(big.Int).Mul(big.NewInt(1000), big.NewInt(params.Ether))
 	alloc := types.GenesisAlloc{
 		adderC:  {Balance: common.Big0, Code: adderCode},
@@ -199,16 +178,16 @@ func genesis(fork int, gasLimit uint64) *core.Genesis {
 	}
 	for i := 0; i < nAcct; i++ {
 		acc := types.Account{Balance: rich}
-		if i == aBump {
+		if i >= aBump && i < aSweep {
 			acc.Code = delegation(bumpC)
 		}
-		if i == aSweep {
+		if i >= aSweep {
 			acc.Code = delegation(sweepC)
 		}
 		alloc[addrs[i]] = acc
 	}
 	return &core.Genesis{
-		Config:     chainConfig(fork),
+		Config:     cfg,
 		Alloc:      alloc,
 		ExtraData:  []byte("c36 genesis"),
 		Timestamp:  genTime,
@@ -218,1084 +197,3 @@ func genesis(fork int, gasLimit uint64) *core.Genesis {
 	}
 }
 
-// ---------------------------------------------------------------- scenario
-
-type txSpec struct {
-	acct, nonce, typ, kind   int
-	gas                      uint64
-	feeCap, tipCap           uint64 // wei
-	value                    uint64
-	dataLen, nBlobs          int
-	blobFeeCap               uint64
-	timeRank                 int
-	authAcct, authNonce      int // set-code transactions: authority account / nonce (authAcct<0: none)
-}
-
-type wdSpec struct {
-	index, validator uint64
-	acct             int
-	amount           uint64
-}
-
-type scenario struct {
-	fork                int
-	gasLimit, gasCeil   uint64
-	minTip              uint64
-	maxBlobsCfg         int
-	timeDelta           uint64
-	random, beaconRoot  common.Hash
-	slot                uint64
-	targetGas           uint64 // 0 = nil
-	wds                 []wdSpec
-	prio                []int
-	txs                 []txSpec
-}
-
-const (
-	kTransfer = iota
-	kAdder
-	kRevert
-	kBurn
-	kCreate
-	kCallBump
-	kCallSweep
-	kLog
-	kBigData
-	nKinds
-)
-
-func (s txSpec) sx() Sx {
-	return L(I(int64(s.acct)), I(int64(s.nonce)), I(int64(s.typ)), I(int64(s.kind)), U(s.gas), U(s.feeCap), U(s.tipCap), U(s.value),
-		I(int64(s.dataLen)), I(int64(s.nBlobs)), U(s.blobFeeCap), I(int64(s.timeRank)), I(int64(s.authAcct)), I(int64(s.authNonce)))
-}
-
-func (sc *scenario) sx() Sx {
-	var wds, prio, txs SL
-	wds, prio, txs = SL{}, SL{}, SL{}
-	for _, w := range sc.wds {
-		wds = append(wds, L(U(w.index), U(w.validator), I(int64(w.acct)), U(w.amount)))
-	}
-	for _, p := range sc.prio {
-		prio = append(prio, I(int64(p)))
-	}
-	for _, t := range sc.txs {
-		txs = append(txs, t.sx())
-	}
-	return L(I(int64(sc.fork)), U(sc.gasLimit), U(sc.gasCeil), U(sc.minTip), I(int64(sc.maxBlobsCfg)), U(sc.timeDelta),
-		B(sc.random[:]), B(sc.beaconRoot[:]), U(sc.slot), U(sc.targetGas), wds, prio, txs)
-}
-
-func asInt(s Sx) int {
-	v, ok := s.(SI)
-	if !ok || !v.V.IsInt64() {
-		panic("hxlib: expected small integer")
-	}
-	return int(v.V.Int64())
-}
-func asU64(s Sx) uint64 {
-	v, ok := s.(SI)
-	if !ok || !v.V.IsUint64() {
-		panic("hxlib: expected uint64")
-	}
-	return v.V.Uint64()
-}
-func asList(s Sx) SL {
-	v, ok := s.(SL)
-	if !ok {
-		panic("hxlib: expected list")
-	}
-	return v
-}
-func asHash(s Sx) common.Hash {
-	v, ok := s.(SB)
-	if !ok {
-		panic("hxlib: expected bytes")
-	}
-	return common.BytesToHash(v)
-}
-func clampAcct(a int) int {
-	if a < 0 || a >= nAcct {
-		panic("hxlib: account index out of range")
-	}
-	return a
-}
-
-func parseScenario(s Sx) *scenario {
-	l := asList(s)
-	if len(l) != 13 {
-		panic("hxlib: scenario shape")
-	}
-	sc := &scenario{fork: asInt(l[0]), gasLimit: asU64(l[1]), gasCeil: asU64(l[2]), minTip: asU64(l[3]), maxBlobsCfg: asInt(l[4]),
-		timeDelta: asU64(l[5]), random: asHash(l[6]), beaconRoot: asHash(l[7]), slot: asU64(l[8]), targetGas: asU64(l[9])}
-	if sc.fork < 0 || sc.fork >= nForks || sc.gasLimit < 5000 || sc.gasLimit > 1<<40 || sc.timeDelta == 0 || sc.timeDelta > 1<<20 || sc.maxBlobsCfg < 0 {
-		panic("hxlib: scenario range")
-	}
-	for _, w := range asList(l[10]) {
-		wl := asList(w)
-		if len(wl) != 4 {
-			panic("hxlib: withdrawal shape")
-		}
-		sc.wds = append(sc.wds, wdSpec{asU64(wl[0]), asU64(wl[1]), clampAcct(asInt(wl[2])), asU64(wl[3])})
-	}
-	for _, p := range asList(l[11]) {
-		sc.prio = append(sc.prio, clampAcct(asInt(p)))
-	}
-	for _, t := range asList(l[12]) {
-		tl := asList(t)
-		if len(tl) != 14 {
-			panic("hxlib: tx shape")
-		}
-		ts := txSpec{acct: clampAcct(asInt(tl[0])), nonce: asInt(tl[1]), typ: asInt(tl[2]), kind: asInt(tl[3]), gas: asU64(tl[4]),
-			feeCap: asU64(tl[5]), tipCap: asU64(tl[6]), value: asU64(tl[7]), dataLen: asInt(tl[8]), nBlobs: asInt(tl[9]),
-			blobFeeCap: asU64(tl[10]), timeRank: asInt(tl[11]), authAcct: asInt(tl[12]), authNonce: asInt(tl[13])}
-		if ts.nonce < 0 || ts.typ < 0 || ts.typ > 4 || ts.kind < 0 || ts.kind >= nKinds || ts.dataLen < 0 || ts.dataLen > 100000 ||
-			ts.nBlobs < 0 || ts.nBlobs > 6 || ts.timeRank < 0 || ts.timeRank > 1<<20 || ts.authAcct >= nAcct || ts.authNonce < 0 {
-			panic("hxlib: tx range")
-		}
-		sc.txs = append(sc.txs, ts)
-	}
-	return sc
-}
-
-func buildTx(cfg *params.ChainConfig, fork int, id int, s txSpec) *types.Transaction {
-	var (
-		to    *common.Address
-		data  []byte
-		value = new(big.Int).SetUint64(s.value)
-	)
-	word := func(v byte) []byte { b := make([]byte, 32); b[31] = v; return b }
-	switch s.kind {
-	case kTransfer:
-		a := addrs[(s.acct+1+id)%nPlain]
-		to = &a
-	case kAdder:
-		to, data = &adderC, word(byte(id%5))
-	case kRevert:
-		to = &revertC
-	case kBurn:
-		to = &burnC
-	case kCreate:
-		to, data = nil, createInit
-	case kCallBump:
-		to = &addrs[aBump]
-	case kCallSweep:
-		to = &addrs[aSweep]
-	case kLog:
-		to, data = &logC, word(byte(id))
-	case kBigData:
-		to = &sink
-		data = make([]byte, s.dataLen)
-		for i := range data {
-			data[i] = byte(i*7 + id)
-		}
-	}
-	fee, tip := new(big.Int).SetUint64(s.feeCap), new(big.Int).SetUint64(s.tipCap)
-	var inner types.TxData
-	switch s.typ {
-	case 0:
-		inner = &types.LegacyTx{Nonce: uint64(s.nonce), To: to, Value: value, Gas: s.gas, GasPrice: fee, Data: data}
-	case 1:
-		inner = &types.AccessListTx{ChainID: cfg.ChainID, Nonce: uint64(s.nonce), To: to, Value: value, Gas: s.gas, GasPrice: fee, Data: data,
-			AccessList: types.AccessList{{Address: adderC, StorageKeys: []common.Hash{{31: 1}}}}}
-	case 2:
-		inner = &types.DynamicFeeTx{ChainID: cfg.ChainID, Nonce: uint64(s.nonce), To: to, Value: value, Gas: s.gas, GasFeeCap: fee, GasTipCap: tip, Data: data}
-	case 3:
-		initBlobs()
-		if to == nil {
-			to = &sink
-		}
-		n := s.nBlobs
-		if n < 1 {
-			n = 1
-		}
-		var (
-			bs []kzg4844.Blob
-			cs []kzg4844.Commitment
-			ps []kzg4844.Proof
-		)
-		version := types.BlobSidecarVersion0
-		if fork >= fOsaka {
-			version = types.BlobSidecarVersion1
-		}
-		for i := 0; i < n; i++ {
-			j := (id + i) % nBlobs
-			bs, cs = append(bs, blobs[j]), append(cs, commits[j])
-			if version == types.BlobSidecarVersion0 {
-				ps = append(ps, proofsV0[j])
-			} else {
-				ps = append(ps, proofsV1[j]...)
-			}
-		}
-		sc := types.NewBlobTxSidecar(version, bs, cs, ps)
-		inner = &types.BlobTx{ChainID: uint256.MustFromBig(cfg.ChainID), Nonce: uint64(s.nonce), To: *to, Value: uint256.MustFromBig(value), Gas: s.gas,
-			GasFeeCap: uint256.MustFromBig(fee), GasTipCap: uint256.MustFromBig(tip), Data: data,
-			BlobFeeCap: uint256.NewInt(s.blobFeeCap), BlobHashes: sc.BlobHashes(), Sidecar: sc}
-	case 4:
-		if to == nil {
-			to = &sink
-		}
-		var auths []types.SetCodeAuthorization
-		if s.authAcct >= 0 {
-			a, err := types.SignSetCode(keys[s.authAcct], types.SetCodeAuthorization{ChainID: *uint256.MustFromBig(cfg.ChainID), Address: adderC, Nonce: uint64(s.authNonce)})
-			if err != nil {
-				panic(err)
-			}
-			auths = append(auths, a)
-		}
-		inner = &types.SetCodeTx{ChainID: uint256.MustFromBig(cfg.ChainID), Nonce: uint64(s.nonce), To: *to, Value: uint256.MustFromBig(value), Gas: s.gas,
-			GasFeeCap: uint256.MustFromBig(fee), GasTipCap: uint256.MustFromBig(tip), Data: data, AuthList: auths}
-	}
-	tx, err := types.SignNewTx(keys[s.acct], types.LatestSignerForChainID(cfg.ChainID), inner)
-	if err != nil {
-		panic(err)
-	}
-	tx.SetTime(time.Unix(1_700_000_000+int64(s.timeRank), int64(id)))
-	return tx
-}
-
-// ---------------------------------------------------------------- builder world
-
-type backend struct {
-	chain *core.BlockChain
-	pool  *txpool.TxPool
-}
-
-func (b *backend) BlockChain() *core.BlockChain { return b.chain }
-func (b *backend) TxPool() *txpool.TxPool       { return b.pool }
-
-func newChain(gspec *core.Genesis) *core.BlockChain {
-	opts := &core.BlockChainConfig{TrieCleanLimit: 0, TrieDirtyLimit: 16, TrieTimeLimit: 5 * time.Minute, SnapshotLimit: 0,
-		ArchiveMode: true, StateScheme: rawdb.HashScheme, NoPrefetch: true}
-	chain, err := core.NewBlockChain(rawdb.NewMemoryDatabase(), gspec, beacon.New(ethash.NewFaker()), opts)
-	if err != nil {
-		panic(fmt.Sprintf("NewBlockChain: %v", err))
-	}
-	return chain
-}
-
-var tmpRoot = func() string {
-	if st, err := os.Stat("/dev/shm"); err == nil && st.IsDir() {
-		return "/dev/shm"
-	}
-	return ""
-}()
-
-// the run of the real builder and what it produced
-type built struct {
-	sc       *scenario
-	cfg      *params.ChainConfig
-	gspec    *core.Genesis
-	txs      []*types.Transaction // by id
-	byHash   map[common.Hash]int
-	addErrs  int
-	pendPlain, pendBlob map[common.Address][]*txpool.LazyTransaction
-	parent   *types.Header
-	block    *types.Block
-	receipts []*types.Receipt
-	reverted []*types.Transaction
-	revIdx   []uint32
-	envelope *engine.ExecutionPayloadEnvelope
-	empty    *engine.ExecutionPayloadEnvelope
-	table    []tableRow
-	replayErr string
-	buildErr error
-	maxBlobs int
-	baseFee  *big.Int
-}
-
-type tableRow struct {
-	pos, id, class int
-	a, b, c        uint64
-}
-
-const (
-	cOk = iota
-	cNonceTooLow
-	cNonceTooHigh
-	cGasLimitReached
-	cTxTypeNotSupported
-	cOtherPre
-	cOtherPost
-)
-
-func classify(err error) int {
-	switch {
-	case err == nil:
-		return cOk
-	case errors.Is(err, core.ErrNonceTooLow):
-		return cNonceTooLow
-	case errors.Is(err, core.ErrNonceTooHigh):
-		return cNonceTooHigh
-	case errors.Is(err, core.ErrGasLimitReached):
-		return cGasLimitReached
-	case errors.Is(err, core.ErrTxTypeNotSupported):
-		return cTxTypeNotSupported
-	case errors.Is(err, core.ErrInsufficientFunds), errors.Is(err, core.ErrIntrinsicGas), errors.Is(err, core.ErrFloorDataGas):
-		return cOtherPost
-	default:
-		return cOtherPre
-	}
-}
-
-func (bt *scenario) args(parent *types.Header) *miner.BuildPayloadArgs {
-	a := &miner.BuildPayloadArgs{Parent: parent.Hash(), Timestamp: parent.Time + bt.timeDelta, FeeRecipient: coinbase, Random: bt.random,
-		Withdrawals: types.Withdrawals{}, BeaconRoot: &bt.beaconRoot, Version: engine.PayloadV3}
-	for _, w := range bt.wds {
-		a.Withdrawals = append(a.Withdrawals, &types.Withdrawal{Index: w.index, Validator: w.validator, Address: addrs[w.acct], Amount: w.amount})
-	}
-	if bt.fork == fAmsterdam {
-		a.SlotNum = u64p(bt.slot)
-		if bt.targetGas != 0 {
-			a.TargetGasLimit = u64p(bt.targetGas)
-		}
-	}
-	return a
-}
-
-// build runs the real pools and miner on the scenario. recommit is the miner's Recommit.
-func build(sc *scenario, recommit time.Duration) (bt *built, cleanup func()) {
-	bt = &built{sc: sc, cfg: chainConfig(sc.fork), byHash: map[common.Hash]int{}}
-	bt.gspec = genesis(sc.fork, sc.gasLimit)
-	bt.gspec.Config = bt.cfg
-	chain := newChain(bt.gspec)
-	dir, err := os.MkdirTemp(tmpRoot, "c36-blob-")
-	if err != nil {
-		panic(err)
-	}
-	lcfg := legacypool.DefaultConfig
-	lcfg.Journal = ""
-	lcfg.PriceLimit = 1
-	lpool := legacypool.New(lcfg, chain)
-	bcfg := blobpool.DefaultConfig
-	bcfg.Datadir = dir
-	bpool := blobpool.New(bcfg, chain, nil)
-	pool, err := txpool.New(1, chain, []txpool.SubPool{lpool, bpool})
-	if err != nil {
-		panic(fmt.Sprintf("txpool.New: %v", err))
-	}
-	cleanup = func() {
-		pool.Close()
-		chain.Stop()
-		os.RemoveAll(dir)
-	}
-	for id, s := range sc.txs {
-		tx := buildTx(bt.cfg, sc.fork, id, s)
-		bt.txs = append(bt.txs, tx)
-		bt.byHash[tx.Hash()] = id
-	}
-	for _, tx := range bt.txs {
-		if errs := pool.Add([]*types.Transaction{tx}, true); errs[0] != nil {
-			bt.addErrs++
-		}
-	}
-	pool.Sync()
-
-	parent := chain.CurrentBlock()
-	bt.parent = parent
-	args := sc.args(parent)
-	mcfg := miner.Config{PendingFeeRecipient: coinbase, GasCeil: sc.gasCeil, GasPrice: new(big.Int).SetUint64(sc.minTip), Recommit: recommit,
-		MaxBlobsPerBlock: sc.maxBlobsCfg, ExtraData: []byte("c36")}
-	m := miner.New(&backend{chain, pool}, mcfg, chain.Engine())
-	if len(sc.prio) > 0 {
-		var pr []common.Address
-		for _, p := range sc.prio {
-			pr = append(pr, addrs[p])
-		}
-		m.SetPrioAddresses(pr)
-	}
-	// what the pools will serve to fillTransactions (same filter as miner/worker.go builds)
-	number := new(big.Int).Add(parent.Number, common.Big1)
-	ts := args.Timestamp
-	bt.baseFee = eip1559.CalcBaseFee(bt.cfg, parent)
-	hdr := &types.Header{Number: number, Time: ts, BaseFee: bt.baseFee}
-	ebg := eip4844.CalcExcessBlobGas(bt.cfg, parent, ts)
-	hdr.ExcessBlobGas = &ebg
-	filter := txpool.PendingFilter{MinTip: uint256.NewInt(sc.minTip), BaseFee: uint256.MustFromBig(bt.baseFee),
-		BlobFee: uint256.MustFromBig(eip4844.CalcBlobFee(bt.cfg, hdr))}
-	if bt.cfg.IsOsaka(number, ts) && !bt.cfg.IsAmsterdam(number, ts) {
-		filter.GasLimitCap = params.MaxTxGas
-	}
-	bt.pendPlain, _ = pool.Pending(filter)
-	filter.BlobTxs = true
-	if bt.cfg.IsOsaka(number, ts) {
-		filter.BlobVersion = types.BlobSidecarVersion1
-	}
-	bt.pendBlob, _ = pool.Pending(filter)
-	bt.maxBlobs = eip4844.MaxBlobsPerBlock(bt.cfg, ts)
-	if sc.maxBlobsCfg != 0 && sc.maxBlobsCfg < bt.maxBlobs {
-		bt.maxBlobs = sc.maxBlobsCfg
-	}
-
-	payload, err := m.BuildPayload(context.Background(), args, false)
-	if err != nil {
-		bt.buildErr = err
-		return
-	}
-	bt.empty = payload.ResolveEmpty()
-	bt.envelope = payload.ResolveFull()
-	bt.block, bt.receipts, bt.reverted, bt.revIdx = payload.FullBlockAndReceipts()
-	if bt.envelope == nil || bt.block == nil {
-		bt.buildErr = errors.New("no full payload")
-		return
-	}
-	bt.replay(chain)
-	return
-}
-
-// replay re-runs the miner's attempts (in the miner's order) on a shadow environment to
-// obtain the class and the gas-pool charge of every core.ApplyTransaction call.
-func (bt *built) replay(chain *core.BlockChain) {
-	statedb, err := chain.StateAt(bt.parent)
-	if err != nil {
-		bt.replayErr = "state: " + err.Error()
-		return
-	}
-	header := types.CopyHeader(bt.block.Header())
-	cb := coinbase
-	evm := vm.NewEVM(core.NewEVMBlockContext(header, chain, &cb), statedb, bt.cfg, vm.Config{})
-	defer evm.Release()
-	core.PreExecution(context.Background(), header.ParentBeaconRoot, bt.parent, bt.cfg, evm, header.Number, header.Time)
-	gp := core.NewGasPool(header.GasLimit)
-	ams := bt.cfg.IsAmsterdam(header.Number, header.Time)
-	try := func(pos int, tx *types.Transaction, wantOk bool) {
-		id, ok := bt.byHash[tx.Hash()]
-		if !ok {
-			bt.replayErr = "unknown tx in block"
-			return
-		}
-		statedb.SetTxContext(tx.Hash(), pos, uint32(pos+1))
-		snap, gps := statedb.Snapshot(), gp.Snapshot()
-		rem0, ce0, cs0, cu0 := gp.Gas(), gp.CumulativeExecution(), gp.CumulativeState(), gp.CumulativeUsed()
-		_, _, err := core.ApplyTransaction(evm, gp, statedb, header, tx)
-		row := tableRow{pos: pos, id: id, class: classify(err)}
-		if err != nil {
-			statedb.RevertToSnapshot(snap)
-			gp.Set(gps)
-		} else if ams {
-			row.a, row.b, row.c = gp.CumulativeExecution()-ce0, gp.CumulativeState()-cs0, gp.CumulativeUsed()-cu0
-		} else {
-			row.a = gp.CumulativeUsed() - cu0       // gas used
-			row.b = tx.Gas() - (rem0 - gp.Gas())     // gas returned to the pool
-		}
-		if (err == nil) != wantOk && bt.replayErr == "" {
-			bt.replayErr = fmt.Sprintf("replay of attempt (pos %d, tx %d) disagrees with the miner: err=%v", pos, id, err)
-		}
-		bt.table = append(bt.table, row)
-	}
-	ri := 0
-	incl := bt.block.Transactions()
-	for k := 0; k <= len(incl); k++ {
-		for ri < len(bt.reverted) && int(bt.revIdx[ri]) == k {
-			try(k, bt.reverted[ri], false)
-			ri++
-		}
-		if k < len(incl) {
-			try(k, incl[k], true)
-		}
-	}
-	if ri != len(bt.reverted) && bt.replayErr == "" {
-		bt.replayErr = "reverted index beyond the block"
-	}
-}
-
-// ---------------------------------------------------------------- record (model input)
-
-func (bt *built) pendSx(m map[common.Address][]*txpool.LazyTransaction) Sx {
-	idx := map[common.Address]int{}
-	for i, a := range addrs {
-		idx[a] = i
-	}
-	var accts []int
-	for a := range m {
-		accts = append(accts, idx[a])
-	}
-	sort.Ints(accts)
-	out := SL{}
-	for _, ai := range accts {
-		l := SL{}
-		for _, lz := range m[addrs[ai]] {
-			id := bt.byHash[lz.Hash]
-			tm := int64(0)
-			if lz.Tx != nil { // legacypool: the tx's own first-seen time; blobpool: one instant for all
-				tm = lz.Time.Unix()*1_000_000 + int64(lz.Time.Nanosecond())
-			}
-			l = append(l, L(I(int64(id)), U(bt.txs[id].Nonce()), Big(lz.GasFeeCap.ToBig()), Big(lz.GasTipCap.ToBig()), I(tm), U(lz.Gas), U(lz.BlobGas)))
-		}
-		out = append(out, L(I(int64(ai)), l))
-	}
-	return out
-}
-
-func (bt *built) record() Sx {
-	if bt.buildErr != nil {
-		return L(I(0))
-	}
-	h := bt.block.Header()
-	bi := func(b bool) int64 {
-		if b {
-			return 1
-		}
-		return 0
-	}
-	cfg := L(I(bi(bt.cfg.IsCancun(h.Number, h.Time))), I(bi(bt.cfg.IsAmsterdam(h.Number, h.Time))), I(bi(bt.cfg.IsEIP155(h.Number))),
-		I(int64(bt.maxBlobs)), U(h.GasLimit), Big(bt.baseFee), U(uint64(h.Size())+uint64(bt.block.Withdrawals().Size())))
-	prio := SL{}
-	for _, p := range bt.sc.prio {
-		prio = append(prio, I(int64(p)))
-	}
-	meta := SL{}
-	for id, tx := range bt.txs {
-		nb, isBlob := 0, tx.Type() == types.BlobTxType
-		if sc := tx.BlobTxSidecar(); sc != nil {
-			nb = len(sc.Blobs)
-		}
-		meta = append(meta, L(I(int64(id)), U(tx.Gas()), U(tx.BlobGas()), I(int64(nb)), U(tx.Size()), U(tx.WithoutBlobTxSidecar().Size()),
-			I(1), I(bi(tx.Protected())), I(bi(isBlob))))
-	}
-	tab := SL{}
-	for _, r := range bt.table {
-		tab = append(tab, L(I(int64(r.pos)), I(int64(r.id)), I(int64(r.class)), U(r.a), U(r.b), U(r.c)))
-	}
-	return L(I(1), cfg, prio, bt.pendSx(bt.pendPlain), bt.pendSx(bt.pendBlob), meta, tab)
-}
-
-// ---------------------------------------------------------------- importers
-
-func insertFresh(bt *built) (err error, extra string) {
-	chain := newChain(bt.gspec)
-	defer chain.Stop()
-	if _, err := chain.InsertChain(types.Blocks{bt.block}); err != nil {
-		return err, ""
-	}
-	if chain.CurrentBlock().Hash() != bt.block.Hash() {
-		return nil, "fresh chain head is not the built block"
-	}
-	rs := chain.GetReceiptsByHash(bt.block.Hash())
-	h := bt.block.Header()
-	if types.DeriveSha(rs, trie.NewStackTrie(nil)) != h.ReceiptHash {
-		return nil, "re-executed receipts root differs from header"
-	}
-	if types.MergeBloom(rs) != h.Bloom {
-		return nil, "re-executed bloom differs from header"
-	}
-	var cum uint64
-	for i, r := range rs {
-		if r.GasUsed != bt.receipts[i].GasUsed || r.Status != bt.receipts[i].Status {
-			return nil, fmt.Sprintf("receipt %d differs between builder and importer", i)
-		}
-		cum += r.GasUsed
-	}
-	if !chain.HasState(h.Root) {
-		return nil, "importer has no state for the header root"
-	}
-	return nil, ""
-}
-
-func newPayloadFresh(bt *built) (status string, err error) {
-	n, err := node.New(&node.Config{P2P: p2p.Config{NoDiscovery: true, NoDial: true, ListenAddr: ""}})
-	if err != nil {
-		return "", fmt.Errorf("node.New: %w", err)
-	}
-	defer n.Close()
-	ecfg := ethconfig.Defaults
-	ecfg.Genesis = bt.gspec
-	ecfg.SyncMode = ethconfig.FullSync
-	ecfg.TrieCleanCache, ecfg.TrieDirtyCache, ecfg.SnapshotCache = 0, 16, 0
-	ecfg.StateScheme = rawdb.HashScheme
-	ecfg.TxPool.Journal = ""
-	ecfg.BlobPool.Datadir = ""
-	ecfg.Miner = miner.DefaultConfig
-	svc, err := eth.New(n, &ecfg)
-	if err != nil {
-		return "", fmt.Errorf("eth.New: %w", err)
-	}
-	api := catalyst.VerifNewConsensusAPI(svc)
-	ed := *bt.envelope.ExecutionPayload
-	hashes := []common.Hash{}
-	for _, tx := range bt.block.Transactions() {
-		hashes = append(hashes, tx.BlobHashes()...)
-	}
-	reqs := []hexutil.Bytes{}
-	for _, r := range bt.envelope.Requests {
-		reqs = append(reqs, r)
-	}
-	var st engine.PayloadStatusV1
-	ctx := context.Background()
-	switch bt.sc.fork {
-	case fCancun:
-		st, err = api.NewPayloadV3(ctx, ed, hashes, &bt.sc.beaconRoot)
-	case fPrague, fOsaka, fBPO1:
-		st, err = api.NewPayloadV4(ctx, ed, hashes, &bt.sc.beaconRoot, reqs)
-	default:
-		st, err = api.NewPayloadV5(ctx, ed, hashes, &bt.sc.beaconRoot, reqs)
-	}
-	if err != nil {
-		return st.Status, err
-	}
-	if st.Status == engine.VALID && (st.LatestValidHash == nil || *st.LatestValidHash != bt.block.Hash()) {
-		return st.Status, errors.New("latestValidHash is not the built block")
-	}
-	if st.ValidationError != nil {
-		return st.Status, errors.New(*st.ValidationError)
-	}
-	return st.Status, nil
-}
-
-// ---------------------------------------------------------------- oracle + observation
-
-func (bt *built) ids(txs types.Transactions) Sx {
-	out := SL{}
-	for _, tx := range txs {
-		out = append(out, I(int64(bt.byHash[tx.Hash()])))
-	}
-	return out
-}
-
-func oracle(bt *built) string {
-	h := bt.block.Header()
-	// gas / blob limits
-	var sum uint64
-	for _, r := range bt.receipts {
-		sum += r.GasUsed
-	}
-	if h.GasUsed > h.GasLimit {
-		return fmt.Sprintf("header gas used %d > gas limit %d", h.GasUsed, h.GasLimit)
-	}
-	if bt.sc.fork != fAmsterdam && sum != h.GasUsed {
-		return fmt.Sprintf("sum of receipt gas %d != header gas used %d", sum, h.GasUsed)
-	}
-	nb := 0
-	for _, tx := range bt.block.Transactions() {
-		nb += len(tx.BlobHashes())
-	}
-	if nb > bt.maxBlobs {
-		return fmt.Sprintf("%d blobs > max %d", nb, bt.maxBlobs)
-	}
-	if h.BlobGasUsed == nil || *h.BlobGasUsed != uint64(nb)*params.BlobTxBlobGasPerBlob {
-		return "header blob gas used is not blobs * gas per blob"
-	}
-	// per-account nonce order, contiguous from the parent state nonce unless the account's
-	// nonce is moved by someone else (delegated accounts / set-code authorities)
-	signer := types.MakeSigner(bt.cfg, h.Number, h.Time)
-	last := map[common.Address]uint64{}
-	for _, tx := range bt.block.Transactions() {
-		from, err := types.Sender(signer, tx)
-		if err != nil {
-			return "included tx without valid sender"
-		}
-		if n, ok := last[from]; ok && tx.Nonce() <= n {
-			return fmt.Sprintf("account %x: nonce %d included after nonce %d", from, tx.Nonce(), n)
-		}
-		last[from] = tx.Nonce()
-	}
-	if len(bt.receipts) != len(bt.block.Transactions()) {
-		return "receipts / transactions length mismatch"
-	}
-	if bt.replayErr != "" {
-		return bt.replayErr
-	}
-	if s := bt.lazyOK(); s != "" {
-		return s
-	}
-	// payload attributes made it into the block
-	if h.MixDigest != bt.sc.random || h.ParentBeaconRoot == nil || *h.ParentBeaconRoot != bt.sc.beaconRoot || h.Coinbase != coinbase ||
-		len(bt.block.Withdrawals()) != len(bt.sc.wds) || h.Time != bt.parent.Time+bt.sc.timeDelta {
-		return "payload attributes not reflected in the built block"
-	}
-	// import into a fresh chain
-	t1 := time.Now()
-	defer func() {
-		if os.Getenv("C36_TIMING") != "" {
-			fmt.Fprintf(os.Stderr, "oracle imports %v\n", time.Since(t1))
-		}
-	}()
-	err, extra := insertFresh(bt)
-	if os.Getenv("C36_TIMING") != "" {
-		fmt.Fprintf(os.Stderr, "insertFresh %v\n", time.Since(t1))
-	}
-	if err != nil {
-		return "InsertChain rejects the locally built block: " + err.Error()
-	}
-	if extra != "" {
-		return extra
-	}
-	// the empty payload is a valid block too
-	if bt.empty != nil {
-		eb, err := engine.ExecutableDataToBlock(*bt.empty.ExecutionPayload, []common.Hash{}, &bt.sc.beaconRoot, bt.empty.Requests)
-		if err != nil {
-			return "empty payload does not decode: " + err.Error()
-		}
-		c := newChain(bt.gspec)
-		_, err = c.InsertChain(types.Blocks{eb})
-		c.Stop()
-		if err != nil {
-			return "InsertChain rejects the empty payload: " + err.Error()
-		}
-	}
-	st, err := newPayloadFresh(bt)
-	if err != nil {
-		return fmt.Sprintf("NewPayload: status %q err %v", st, err)
-	}
-	if st != engine.VALID {
-		return fmt.Sprintf("NewPayload status %q, want VALID", st)
-	}
-	return ""
-}
-
-func runCase(c Sx) Result {
-	cl := asList(c)
-	if len(cl) != 2 {
-		panic("hxlib: case shape")
-	}
-	sc := parseScenario(cl[0])
-	t0 := time.Now()
-	bt, cleanup := build(sc, time.Hour)
-	defer cleanup()
-	if os.Getenv("C36_TIMING") != "" {
-		defer func() { fmt.Fprintf(os.Stderr, "case total %v\n", time.Since(t0)) }()
-		fmt.Fprintf(os.Stderr, "build %v\n", time.Since(t0))
-	}
-	tags := []string{fmt.Sprintf("fork%d", sc.fork)}
-	if bt.buildErr != nil {
-		return Result{Obs: L(I(0)), Oracle: "BuildPayload failed: " + bt.buildErr.Error(), Tags: tags}
-	}
-	rec := bt.record()
-	recOK := String(rec) == String(cl[1])
-	orc := oracle(bt)
-	if orc == "" && !recOK && os.Getenv("C36_IGNORE_RECORD") == "" {
-		// not a property failure; shows up as a correspondence mismatch through the observation
-	}
-	h := bt.block.Header()
-	rev := SL{}
-	for i, tx := range bt.reverted {
-		rev = append(rev, L(I(int64(bt.byHash[tx.Hash()])), I(int64(bt.revIdx[i]))))
-	}
-	bi := func(b bool) Sx { return Bool(b) }
-	obs := L(I(1), bi(recOK), bi(bt.chargesWF()), bt.ids(bt.block.Transactions()), U(h.GasUsed), U(*h.BlobGasUsed), rev)
-	// tags
-	tags = append(tags, fmt.Sprintf("incl%d", bucket(len(bt.block.Transactions()))), fmt.Sprintf("rev%d", bucket(len(bt.reverted))),
-		fmt.Sprintf("pend%d", bucket(count(bt.pendPlain)+count(bt.pendBlob))))
-	if count(bt.pendBlob) > 0 {
-		tags = append(tags, "blobpending")
-	}
-	if *h.BlobGasUsed > 0 {
-		tags = append(tags, "blobincluded")
-	}
-	if len(sc.prio) > 0 {
-		tags = append(tags, "prio")
-	}
-	if len(sc.wds) > 0 {
-		tags = append(tags, "withdrawals")
-	}
-	if bt.addErrs > 0 {
-		tags = append(tags, "pooladd-rejects")
-	}
-	seen := map[int]bool{}
-	for _, r := range bt.table {
-		if r.class != cOk && !seen[r.class] {
-			seen[r.class] = true
-			tags = append(tags, fmt.Sprintf("applyerr%d", r.class))
-		}
-	}
-	failed := 0
-	for _, r := range bt.receipts {
-		if r.Status == types.ReceiptStatusFailed {
-			failed++
-		}
-	}
-	if failed > 0 {
-		tags = append(tags, "failed-receipts")
-	}
-	left := count(bt.pendPlain) + count(bt.pendBlob) - len(bt.block.Transactions())
-	if left > 0 {
-		tags = append(tags, "not-all-included")
-	}
-	nt := len(bt.block.Transactions()) >= 2 && (left > 0 || len(bt.reverted) > 0 || failed > 0 || *h.BlobGasUsed > 0)
-	return Result{Obs: obs, Oracle: orc, Tags: tags, NonTrivial: nt}
-}
-
-// chargesWF: every recorded pool charge satisfies the hypotheses the Coq theorems put on
-// the execution oracle (legacy: used + returned = tx gas; Amsterdam: execution gas within
-// min(gas, MaxTxGas), state gas within gas, receipt gas within their sum).
-func (bt *built) chargesWF() bool {
-	h := bt.block.Header()
-	ams := bt.cfg.IsAmsterdam(h.Number, h.Time)
-	for _, r := range bt.table {
-		if r.class != cOk {
-			continue
-		}
-		gas := bt.txs[r.id].Gas()
-		if ams {
-			if r.a > min(gas, params.MaxTxGas) || r.b > gas || r.c > r.a+r.b {
-				return false
-			}
-		} else if r.a+r.b != gas {
-			return false
-		}
-	}
-	return true
-}
-
-// lazyOK: the metadata the pools put on the lazy transactions is that of the transaction
-func (bt *built) lazyOK() string {
-	for _, m := range []map[common.Address][]*txpool.LazyTransaction{bt.pendPlain, bt.pendBlob} {
-		for _, l := range m {
-			for _, lz := range l {
-				tx := bt.txs[bt.byHash[lz.Hash]]
-				if lz.Gas != tx.Gas() || lz.BlobGas != tx.BlobGas() || lz.GasFeeCap.ToBig().Cmp(tx.GasFeeCap()) != 0 || lz.GasTipCap.ToBig().Cmp(tx.GasTipCap()) != 0 {
-					return fmt.Sprintf("pool serves lazy metadata that differs from tx %d", bt.byHash[lz.Hash])
-				}
-			}
-		}
-	}
-	return ""
-}
-
-func count(m map[common.Address][]*txpool.LazyTransaction) int {
-	n := 0
-	for _, l := range m {
-		n += len(l)
-	}
-	return n
-}
-
-func bucket(n int) int {
-	switch {
-	case n <= 1:
-		return n
-	case n <= 4:
-		return 2
-	case n <= 9:
-		return 5
-	default:
-		return 10
-	}
-}
-
-// ---------------------------------------------------------------- generator
-
-func genScenario(r *Rng, adversarial bool) *scenario {
-	sc := &scenario{fork: r.Intn(nForks)}
-	// block gas limit: mostly tiny, so that the block fills up and transactions do not fit
-	switch r.Intn(6) {
-	case 0:
-		sc.gasLimit = uint64(r.Range(30_000, 90_000))
-	case 1, 2:
-		sc.gasLimit = uint64(r.Range(90_000, 400_000))
-	case 3, 4:
-		sc.gasLimit = uint64(r.Range(400_000, 2_000_000))
-	default:
-		sc.gasLimit = 30_000_000
-	}
-	if sc.fork == fAmsterdam && sc.gasLimit < 800_000 && !r.Chance(1, 4) {
-		// Below ~750k the builder can overshoot the EIP-7928 access-list size bound
-		// (items <= gasLimit/2000), which it never checks: known finding
-		// C36-bal-size-not-checked-by-builder (witnesses in corpus/C36); such limits are
-		// kept at a modest rate in the random stream.
-		sc.gasLimit += 800_000
-	}
-	sc.gasCeil = sc.gasLimit
-	if r.Chance(1, 3) {
-		sc.gasCeil = sc.gasLimit * uint64(r.Range(1, 3)) / 2
-	}
-	if sc.gasCeil < 5000 {
-		sc.gasCeil = 5000
-	}
-	sc.minTip = uint64(r.Range(1, 3)) * 1_000_000
-	if r.Chance(1, 4) {
-		sc.minTip = 1
-	}
-	if r.Chance(1, 3) {
-		sc.maxBlobsCfg = r.Range(1, 4)
-	}
-	sc.timeDelta = uint64(r.Range(1, 30))
-	copy(sc.random[:], r.Bytes(32))
-	copy(sc.beaconRoot[:], r.Bytes(32))
-	sc.slot = uint64(r.Range(1, 1000))
-	if r.Chance(1, 3) {
-		sc.targetGas = sc.gasLimit * uint64(r.Range(1, 4)) / 2
-	}
-	for i, n := 0, r.Intn(4); i < n; i++ {
-		sc.wds = append(sc.wds, wdSpec{uint64(i + 5), uint64(r.Intn(100)), r.Intn(nAcct), uint64(r.Intn(1 << 20))})
-	}
-	if r.Chance(1, 3) {
-		for i, n := 0, r.Range(1, 3); i < n; i++ {
-			sc.prio = append(sc.prio, r.Intn(nAcct))
-		}
-	}
-	baseFee := uint64(params.InitialBaseFee) // next base fee <= this on an empty parent
-	nonces := make([]int, nAcct)
-	nTx := r.Range(1, 14)
-	if adversarial {
-		nTx = r.Range(4, 24)
-	}
-	blobAcct := map[int]bool{} // pools reserve an address for one subpool
-	plainAcct := map[int]bool{}
-	tipSeq := uint64(0)
-	for id := 0; id < nTx; id++ {
-		var s txSpec
-		s.authAcct = -1
-		s.acct = r.Intn(nPlain)
-		if r.Chance(1, 6) {
-			s.acct = aBump + r.Intn(2)
-		}
-		s.typ = []int{0, 1, 2, 2, 2, 3, 4}[r.Intn(7)]
-		if s.typ == 4 && sc.fork < fPrague && !adversarial {
-			s.typ = 2
-		}
-		if s.typ == 3 && (plainAcct[s.acct] || s.acct >= nPlain) {
-			s.typ = 2
-		}
-		if s.typ != 3 && blobAcct[s.acct] {
-			s.typ = 3
-		}
-		if s.typ == 3 {
-			blobAcct[s.acct] = true
-		} else {
-			plainAcct[s.acct] = true
-		}
-		s.kind = r.Intn(nKinds)
-		if s.typ == 3 && s.kind == kCreate {
-			s.kind = kTransfer
-		}
-		switch s.kind {
-		case kTransfer:
-			s.gas = 21000
-			s.value = uint64(r.Intn(1000))
-		case kAdder, kLog:
-			s.gas = uint64(r.Range(60_000, 120_000))
-		case kRevert:
-			s.gas = uint64(r.Range(50_000, 90_000))
-		case kBurn:
-			s.gas = uint64(r.Range(25_000, 60_000))
-			if r.Chance(1, 2) {
-				s.gas = 21_000 + sc.gasLimit/uint64(r.Range(3, 8))
-			}
-		case kCreate:
-			s.gas = uint64(r.Range(120_000, 300_000))
-		case kCallBump:
-			s.gas = uint64(r.Range(100_000, 250_000))
-		case kCallSweep:
-			s.gas = uint64(r.Range(60_000, 120_000))
-		case kBigData:
-			s.dataLen = r.Range(1, 600)
-			s.gas = 21000 + uint64(s.dataLen)*60 + 5000
-		}
-		if s.typ == 1 {
-			s.gas += 5000
-		}
-		if s.typ == 4 {
-			s.gas += 60_000
-			if r.Chance(3, 4) {
-				s.authAcct = r.Intn(nPlain)
-				s.authNonce = nonces[s.authAcct]
-				if r.Chance(1, 5) {
-					s.authNonce += r.Range(1, 2)
-				}
-			}
-		}
-		if r.Chance(1, 8) { // gas limit larger than what will be left in the block
-			s.gas += sc.gasLimit / uint64(r.Range(1, 3))
-		}
-		if adversarial && r.Chance(1, 10) {
-			s.gas = uint64(r.Range(1000, 30_000)) // below intrinsic: rejected by the pool
-		}
-		// fees: mostly above the base fee with distinct tips; sometimes underpriced
-		tipSeq++
-		s.tipCap = uint64(r.Range(1, 40))*1_000_000 + tipSeq*1_000 + uint64(id)
-		s.feeCap = baseFee + s.tipCap + uint64(r.Intn(3))*baseFee
-		switch r.Intn(12) {
-		case 0:
-			s.feeCap = baseFee - uint64(r.Range(1, int(baseFee/2))) // fee cap below any possible base fee? (base fee can drop 12.5%)
-		case 1:
-			s.tipCap = uint64(r.Intn(2_000_000)) // tip around the miner's minimum
-		case 2:
-			s.feeCap = baseFee*7/8 + uint64(r.Intn(int(baseFee/4))) // around the next base fee
-		}
-		if s.tipCap > s.feeCap {
-			s.tipCap = s.feeCap
-		}
-		if s.typ == 3 {
-			s.nBlobs = r.Range(1, 3)
-			if r.Chance(1, 6) {
-				s.nBlobs = r.Range(4, 6)
-			}
-			s.blobFeeCap = uint64(r.Range(1, 50))
-			if r.Chance(1, 10) {
-				s.blobFeeCap = 0
-			}
-		}
-		s.nonce = nonces[s.acct]
-		switch {
-		case r.Chance(1, 14):
-			s.nonce += r.Range(1, 2) // gap: stays in the pool's queue
-		case r.Chance(1, 14) && s.nonce > 0:
-			s.nonce-- // replacement attempt
-		default:
-			nonces[s.acct]++
-		}
-		s.timeRank = r.Intn(4 * nTx)
-		sc.txs = append(sc.txs, s)
-	}
-	return sc
-}
-
-func gen(r *Rng, tier string, emit func(c Sx)) {
-	if p := os.Getenv("C36_RECORD_FROM"); p != "" {
-		// tool mode: complete hand-written scenarios (one "(scenario ())" per line) with their record
-		data, err := os.ReadFile(p)
-		if err != nil {
-			panic(err)
-		}
-		for _, line := range bytes.Split(data, []byte("\n")) {
-			if len(bytes.TrimSpace(line)) == 0 {
-				continue
-			}
-			c, err := Parse(string(line))
-			if err != nil {
-				panic(err)
-			}
-			sc := parseScenario(asList(c)[0])
-			bt, cleanup := build(sc, time.Hour)
-			rec := bt.record()
-			cleanup()
-			emit(L(sc.sx(), rec))
-		}
-		return
-	}
-	r = NewRng(r.U64())
-	n := 28
-	if tier == "thorough" {
-		n = 1500
-	}
-	if v := os.Getenv("C36_CASES"); v != "" {
-		fmt.Sscan(v, &n)
-	}
-	for i := 0; i < n; i++ {
-		sc := genScenario(r.Fork(), i%4 == 3)
-		bt, cleanup := build(sc, time.Hour)
-		rec := bt.record()
-		cleanup()
-		emit(L(sc.sx(), rec))
-	}
-}
-
-var _ = bytes.Equal
-
-func main() {
-	Main(Family{
-		ID: "C36",
-		Rule: "case = (scenario, record). scenario: fork in {Cancun, Prague, Osaka, Osaka+BPO1, Amsterdam}, block gas limit 30k..30M (mostly tiny), " +
-			"miner min tip / blob cap / prioritised senders, payload attributes (0-3 withdrawals, beacon root, random, slot, target gas limit), 1-24 " +
-			"transaction specs over 10 funded senders (2 with a genesis EIP-7702 delegation whose nonce/balance other senders can move): legacy, " +
-			"access-list, dynamic-fee, blob (1-6 blobs, v0/v1 sidecars), set-code (authorities with pending txs); transfers, storage writes, reverts, " +
-			"out-of-gas, creates, logs, calldata floors, gas limits above the block limit, nonce gaps, replacements, fee caps / tips around base fee " +
-			"and miner tip; every 4th case is the adversarial stream (more txs, pool-invalid ones, set-code before Prague). The record (pending maps " +
-			"served by the real pools, tx metadata, table of per-(position,tx) ApplyTransaction outcomes from a shadow replay) is recomputed by Run " +
-			"and must reproduce. Non-trivial: >= 2 transactions included and (some pending tx left out, or an attempted tx reverted out of the " +
-			"block, or a failed receipt, or blobs included).",
-		Gen:         gen,
-		Run:         runCase,
-		CaseTimeout: 300 * time.Second,
-	})
-}
